@@ -10,7 +10,7 @@ EXTRA = {  # other checks that are also expected to see the change (cross-detect
     'C03-1': ['C02'], 'C03-2': ['C04', 'C01'], 'C04-1': ['C01'], 'C04-2': ['C02'], 'C05-2': ['C02', 'C18'],
     'C09-1': ['C07'], 'C09-2': ['C07'], 'C08-1': ['C07'], 'C08-2': ['C07'], 'C15-1': ['C16'], 'C16-1': ['C15'],
     'C08-revert-fixA': ['C07'], 'C08-revert-fixB': [],
-    'C10-revert-fixC': [], 'C12-revert-fixD': [],
+    'C10-revert-fixC': [], 'C12-revert-fixD': [], 'C13-revert-fixE': [], 'C07-revert-fixF': ['C08', 'C12'],
     'C01-r4-1': ['C05', 'C08'], 'C01-r4-3': ['C05', 'C02'], 'C04-r4-2': ['C05', 'C07'], 'C03-r4-1': ['C06'], 'C05-r4-3': ['C07'], 'C12-r4-3': ['C07'],
     'C05-r3-1': ['C07'], 'C08-r3-2': ['C07'], 'C11-r3-2': ['C07', 'C08'], 'C01-r3-1': ['C03'], 'C11-r3-1': ['C01'], 'C07-r3-1': ['C05'], 'C17-r3-1': ['C07'], 'C09-r3-2': ['C02'],
     'C05-r2-2': ['C07'], 'C10-r2-3': ['C07', 'C08'], 'C17-r2-3': ['C07'], 'C05-r2-3': ['C03', 'C01'], 'C03-r2-2': ['C01'], 'C04-r2-3': ['C01'],
